@@ -285,32 +285,36 @@ func c09Exhaustive(r *verifh.Rng, sample int) []verifh.Section {
 		}
 	}
 	var secs []verifh.Section
-	emit := func(idx []int) {
+	emit := func(idx []int, third string) {
 		var ops []string
 		for k, i := range idx {
 			m := "GET"
 			if k == 2 {
-				m = "POST"
+				m = third
 			}
 			ops = append(ops, fmt.Sprintf("route m=%s p=%s h=%d", m, pats[i], k+1))
 		}
 		for _, p := range paths {
 			ops = append(ops, fmt.Sprintf("req m=GET p=%s n=6", p))
 		}
+		ops = append(ops, "req m=PUT p=/a/b n=2", "req m=POST p=/a n=2")
 		secs = append(secs, verifh.Section{Cfg: "kind=router mode=x", Ops: ops})
 	}
 	n := len(pats)
 	for i := 0; i < n; i++ {
 		if sample == 0 || r.Intn(sample) == 0 {
-			emit([]int{i})
+			emit([]int{i}, "GET")
 		}
 		for j := i + 1; j < n; j++ {
 			if sample == 0 || r.Intn(sample) == 0 {
-				emit([]int{i, j})
+				emit([]int{i, j}, "GET")
 			}
 			for k := 0; k < n; k++ {
 				if sample == 0 || r.Intn(sample*8) == 0 {
-					emit([]int{i, j, k})
+					emit([]int{i, j, k}, "POST")
+					if k > j {
+						emit([]int{i, j, k}, "GET")
+					}
 				}
 			}
 		}
@@ -321,7 +325,7 @@ func c09Exhaustive(r *verifh.Rng, sample int) []verifh.Section {
 func c09GenAll(r *verifh.Rng) []verifh.Section {
 	g := &c09Gen{r: r}
 	var secs []verifh.Section
-	n := verifh.Scale(150, 1500)
+	n := verifh.Scale(150, 3000)
 	for i := 0; i < n; i++ {
 		secs = append(secs, g.section())
 	}
